@@ -360,6 +360,7 @@ RULES = [
     ("C11.macro", rule_macro),
     ("C11.exported", lambda c, r: __import__("sa.rules.c10", fromlist=["x"]).rule_wrappers(c, r, "C11.exported", ("lfs", "wfs"))),
     ("C11.casexit", rule_cas_exit),
+    ("C11.sharedread", lambda c, r: __import__("sa.rules.c10", fromlist=["x"]).rule_sharedread(c, r, "C11.sharedread", ("wfs", "lfs"))),
     ("C11.init", lambda c, r: __import__("sa.rules.c10", fromlist=["x"]).rule_inits(c, r, "C11.init", ("cds_wfs_node_init", "cds_wfs_init", "__cds_wfs_init", "cds_lfs_init", "__cds_lfs_init", "cds_lfs_init_rcu"))),
 ]
 FLOORS = {}
